@@ -12,6 +12,36 @@ VALUE_ERRORS = ("ValueError", "UnicodeError", "UnicodeEncodeError")
 WIDTHS = (32, 256)
 
 
+def refusal_messages_total(prog, rep, rule="str-refuse-before-return"):
+    """'else refused' means refused WITH ValueError / UnicodeEncodeError: the message of a refusal in BTSString.write must be built
+    without evaluating anything that can fail on the text being refused.  `%` / `.format` are fine on a template that does not
+    contain the text (a literal or a module / class constant); applied to text that was concatenated with the caller's string they
+    parse that string as a format ('50%d', '{x}') and raise TypeError / KeyError / IndexError instead of the refusal."""
+    c = prog.need_cls("BTSString", "tdfTypes")
+    f = prog.need_method(c, "write")
+    local_names = {a.arg for a in f.node.args.args + f.node.args.kwonlyargs} | {x.id for x in walk_no_nested(f.node) if isinstance(x, ast.Name) and isinstance(x.ctx, ast.Store)}
+    n = 0
+    for r in [x for x in walk_no_nested(f.node) if isinstance(x, ast.Raise) and isinstance(x.exc, ast.Call)]:
+        for a in list(r.exc.args) + [k.value for k in r.exc.keywords]:
+            n += 1
+            bad = None
+            for y in ast.walk(a):
+                tmpl = None
+                if isinstance(y, ast.BinOp) and isinstance(y.op, ast.Mod):
+                    tmpl = y.left
+                elif isinstance(y, ast.Call) and isinstance(y.func, ast.Attribute) and y.func.attr in ("format", "format_map"):
+                    tmpl = y.func.value
+                if tmpl is not None and any(isinstance(x, ast.Name) and x.id in local_names for x in ast.walk(tmpl)):
+                    bad = (y, tmpl)
+                    break
+            if bad:
+                rep.fail(rule, "tdfTypes.py", "BTSString.write", r, f"the message of `raise {norm(r.exc.func)}` formats a template that contains the caller's text (`{norm(bad[1])[:60]}`): a text with '%' or braces "
+                         "makes the formatting itself raise (TypeError / KeyError), so the text is not refused with ValueError", construct="BTSString.write refusal message formats the text")
+            else:
+                rep.ok(rule, f"BTSString.write: message of {norm(r.exc.func)} never uses the refused text as a format template")
+    rep.floor(rule + "/messages", n, 1)
+
+
 def string_write_rules(prog, rep):
     """BTSString.write: exact width, terminator, refusal instead of truncation, strict codec (shared with C01 C04 C06 C10)."""
     mod = "tdfTypes.py"
@@ -220,6 +250,7 @@ def run(prog, rep):
     string_write_rules(prog, rep)
     rep.attempt(fields_encoded_at_write_time, prog, rep)
     rep.attempt(text_not_by_truthiness, prog, rep)
+    rep.attempt(refusal_messages_total, prog, rep)
     # 'reading it back returns the identical string': reader and writer use one codec at every call site
     from .. import primitives as PR
     rep.attempt(PR.string_codec, prog, rep, with_nul_cut=False)
